@@ -22,6 +22,7 @@ from engine.src import FunctionInfo, own_nodes, own_nodes_incl_lambda, src_of, A
 from engine.cfg import build_cfg, forward, Node
 from engine.dataflow import defs_of_node
 from engine.util import names_in, is_self_attr, assign_targets
+from .sem import expander, ctext, paths, split_ifexp, truth_of, complement_norm, RAISE, BREAK, CONTINUE
 
 RULES = {
     "C19.a": "per-iteration definite assignment of every loop-assigned name used in a subscript store's index (no stale index from a previous iteration)",
@@ -152,65 +153,206 @@ def check_a(ck, repo):
     ck.extra["index_pairs_checked"] = total
 
 
+def _t(x) -> str:
+    return ast.unparse(x) if isinstance(x, ast.AST) else str(x)
+
+
+def _run_block(fi, stmts, env):
+    from engine.patheval import PathEval
+
+    return PathEval(fi.node, dict(env), post=complement_norm).run(stmts)
+
+
 def check_b(ck, repo):
     ci = repo.cls(MOD, "CategoriesToIntegers")
     tr, bs, fit = ci.methods["transform"], ci.methods["_build_schema"], ci.methods["fit"]
-    # ---- _build_schema
-    loop = [l for l in own_nodes(bs.node) if isinstance(l, ast.For)]
-    if len(loop) != 1:
-        ck.unknown("C19.b", bs, "for c, v in self._categories.items()", "schema loop not found")
+    ex = expander(repo)
+    # ---- _build_schema: one round of its loop
+    loops = [l for l in own_nodes(bs.node) if isinstance(l, ast.For)]
+    rets = [p for p in paths(bs) if p.ret != RAISE]
+    order = None
+    if len(rets) == 1 and isinstance(rets[0].ret, ast.Tuple) and len(rets[0].ret.elts) == 3:
+        order = [_t(e) for e in rets[0].ret.elts]
+    if len(loops) != 1 or order is None or not (isinstance(loops[0].target, ast.Tuple) and len(loops[0].target.elts) == 2):
+        ck.unknown("C19.b", bs, "for c, v in self._categories.items()", "schema loop / returned triple not found")
+        names_v = pos_v = rank_v = None
     else:
-        t = [src_of(s) for s in loop[0].body if not isinstance(s, ast.If)]
-        want = [
-            "sch = [(_[1], f'{c}={_[1]}') for _ in sorted(((n, d) for d, n in v.items()))]",
-            "position[c] = last",
-            "new_vector[c] = {d[0]: i for i, d in enumerate(sch)}",
-            "last += len(sch)",
-            "schema.extend((_[1] for _ in sch))",
-        ]
-        ck.verdict(t == want, "C19.b", bs, " ; ".join(t)[:200], "offset of a column = number of names appended before it; rank = position of the value among that column's names; names are column=value in rank order", "the schema no longer keeps position[c], the per-value ranks and the list of names in step (offsets must advance by exactly the number of names appended)")
-        rm = [s for s in loop[0].body if isinstance(s, ast.If)]
-        ok = len(rm) == 1 and src_of(rm[0].test) == "self.remove" and [src_of(x) for x in rm[0].body] == ["sch = [d for d in sch if d[1] not in self.remove]"] and rm[0].lineno < [s for s in loop[0].body if src_of(s) == "position[c] = last"][0].lineno
-        ck.verdict(ok, "C19.b", bs, rm[0].test if rm else "if self.remove", "removed names are dropped before offsets and ranks are computed", "removal of names happens after offsets/ranks were computed or by another criterion")
-        init = [src_of(s) for s in own_nodes(bs.node) if isinstance(s, ast.Assign) and s.lineno < loop[0].lineno]
-        ck.verdict("last = 0" in init, "C19.b", bs, "last = 0", "offsets start at 0", "offsets do not start at 0")
-        r = [src_of(x.value) for x in own_nodes(bs.node) if isinstance(x, ast.Return)]
-        ck.verdict(r == ["(schema, position, new_vector)"], "C19.b", bs, f"return {r}", "(names, offsets, ranks)", "return order of the schema changed")
-    # ---- fit: sorted distinct non-missing values
-    t = [src_of(s) for s in own_nodes(fit.node) if isinstance(s, ast.Assign)]
-    ck.verdict("distinct = set(X[c].dropna())" in t and "self._categories[c] = dict(((c, i) for i, c in enumerate(list(sorted(distinct)))))" in t, "C19.b", fit, "rank = enumerate(sorted(set(column without missing values)))", "ranks are positions among the sorted training categories", "ranks are not enumerate(sorted(distinct non-missing values))")
-    ck.verdict("self._schema = self._build_schema()" in t and "self._fit_columns = columns" in t, "C19.b", fit, "self._schema = self._build_schema()", "schema rebuilt at every fit", "fit does not rebuild the schema / fitted columns")
-    # ---- transform (indicator branch)
-    unp = [src_of(s) for s in own_nodes(tr.node) if isinstance(s, ast.Assign) and isinstance(s.targets[0], ast.Tuple) and src_of(s.value) == "self._schema"]
-    ck.verdict(len(unp) == 2 and all(u == "sch, pos, new_vector = self._schema" for u in unp), "C19.b", tr, f"{unp}", "schema unpacked in the order _build_schema returns it", "transform unpacks the schema in another order than _build_schema returns")
-    pdef = [s for s in own_nodes(tr.node) if isinstance(s, ast.Assign) and src_of(s.targets[0]) == "p"]
-    ck.verdict(len(pdef) == 1 and src_of(pdef[0].value) == "pos[k] + vec[k][v]", "C19.b", tr, pdef[0] if pdef else "p = pos[k] + vec[k][v]", "cell = offset of the column + rank of the value", "the indicator's column is not pos[column] + rank[column][value]")
-    st = [s for s in own_nodes(tr.node) if isinstance(s, ast.Assign) and src_of(s.targets[0]) == "res[i, p]"]
-    ck.verdict(len(st) == 1 and src_of(st[0].value) == "1.0", "C19.b", tr, st[0] if st else "res[i, p] = 1.0", "exactly one store of 1.0 per cell", "indicator store changed")
-    miss = [s for s in own_nodes(tr.node) if isinstance(s, ast.If) and src_of(s.test) == "v is None or (isinstance(v, float) and numpy.isnan(v))" and isinstance(s.body[-1], ast.Continue)]
-    ck.verdict(len(miss) == 1 and pdef and miss[0].lineno < pdef[0].lineno, "C19.b", tr, miss[0].test if miss else "if v is None or isnan(v): continue", "missing values produce no indicator (skipped before the lookup)", "missing values are not skipped before the category lookup")
-    unseen = [s for s in own_nodes(tr.node) if isinstance(s, ast.If) and src_of(s.test) == "v not in vec[k]"]
-    if len(unseen) != 1:
-        ck.unknown("C19.b", tr, "if v not in vec[k]", "unseen-category branch not found")
-    else:
-        u = unseen[0]
-        inner = [x for x in u.body if isinstance(x, ast.If)]
-        ok = len(inner) == 1 and src_of(inner[0].test) == "b" and any(isinstance(x, ast.Raise) for x in inner[0].body) and not inner[0].orelse
-        bdef = [src_of(s.value) for s in own_nodes(tr.node) if isinstance(s, ast.Assign) and src_of(s.targets[0]) == "b"]
-        ck.verdict(ok and bdef and all(x == "not self.skip_errors" for x in bdef), "C19.b", tr, "if v not in vec[k]: if not skip_errors: raise", "an unseen category raises unless skip_errors", "an unseen category does not raise when skip_errors is False")
-        esc = [x for x in ast.walk(u) if isinstance(x, (ast.Break, ast.Return))]
-        ck.verdict(not esc, "C19.b", tr, esc[0] if esc else "unseen + skip_errors: go on with the next cell", "skipping an unseen value affects that cell only", "an unseen category with skip_errors leaves the row/column loop: the remaining categorical cells of the row get no indicator")
-        ck.verdict(pdef and st and any(pdef[0] is x for x in ast.walk(ast.Module(body=u.orelse, type_ignores=[]))) and any(st[0] is x for x in ast.walk(ast.Module(body=u.orelse, type_ignores=[]))), "C19.b", tr, "else: p = ...; res[i, p] = 1.0", "the indicator is computed and stored only for a known category", "the indicator store is not confined to the known-category branch")
-    # numeric columns and index
-    t = [src_of(s) for s in own_nodes(tr.node) if isinstance(s, ast.Assign)]
-    ck.verdict("dfcat = X[self._fit_columns]" in t and "dfnum = X[[c for c in X.columns if c not in self._fit_columns]]" in t, "C19.b", tr, "dfcat / dfnum split", "numeric columns are exactly the complement of the fitted columns", "numeric/categorical split changed")
-    ck.verdict("newdf = pandas.DataFrame(res, columns=sch, index=dfcat.index)" in t and "allnum = pandas.concat([dfnum, newdf], axis=1)" in t and "allnum = pandas.DataFrame(res, columns=sch, index=dfcat.index)" in t, "C19.b", tr, "DataFrame(res, columns=sch, index=dfcat.index); concat([dfnum, newdf], axis=1)", "rows keep their order and index; numeric columns pass through unchanged", "the indicator frame does not reuse the input index or numeric columns are not concatenated unchanged")
-    loops = [l for l in own_nodes(tr.node) if isinstance(l, ast.For) and src_of(l.iter) == "enumerate(dfcat.to_dict('records'))"]
-    ck.verdict(len(loops) == 1 and src_of(loops[0].target) == "(i, row)", "C19.b", tr, loops[0] if loops else "for i, row in enumerate(dfcat.to_dict('records'))", "row i of the output is row i of the input", "rows are not enumerated in input order")
-    # single=True works on a copy
-    ck.verdict("X = X.copy()" in t, "C19.b", tr, "X = X.copy()", "single=True encodes a copy of the frame", "single=True writes into the caller's frame")
-    ap = [s for s in own_nodes(tr.node) if isinstance(s, ast.Assign) and src_of(s.targets[0]) == "X[c]"]
-    ck.verdict(len(ap) == 1 and src_of(ap[0].value) == "X[c].apply(lambda v, cv=c: transform(v, new_vector[cv]))", "C19.b", tr, ap[0] if ap else "X[c] = X[c].apply(...)", "each fitted column is mapped through its own rank table", "single=True does not map column c through new_vector[c]")
+        l = loops[0]
+        c_, v_ = [src_of(e) for e in l.target.elts]
+        names_v, pos_v, rank_v = order
+        ck.verdict(src_of(l.iter) == "self._categories.items()", "C19.b", bs, f"for {c_}, {v_} in {src_of(l.iter)}", "one round per fitted column, in fit order", "the schema is not built from self._categories in order")
+        # the offset variable: the one stored into the offsets table
+        bp = [p for p in _run_block(bs, l.body, {}) if p.ret is None]
+        ok_all = bool(bp)
+        seen_remove = set()
+        for p in bp:
+            st = {k: v for k, v in p.named_stores.items()}
+            off = st.get(f"{pos_v}[{c_}]")
+            rk = st.get(f"{rank_v}[{c_}]")
+            ok = isinstance(off, ast.Name) and rk is not None
+            S = None
+            if ok:
+                L = off.id
+                after = p.env.get(L)
+                # offsets advance by the number of names appended
+                ok = isinstance(after, ast.BinOp) and isinstance(after.op, ast.Add) and _t(after.left) == L and isinstance(after.right, ast.Call) and _t(after.right.func) == "len" and len(after.right.args) == 1
+                if ok:
+                    S = _t(after.right.args[0])
+                    ext = [c for c in p.calls if _t(c.func) == f"{names_v}.extend" and len(c.args) == 1]
+                    ok = len(ext) == 1 and _t(ext[0].args[0]) in (ctext(f"(x[1] for x in {S})"), ctext(f"[x[1] for x in {S}]"))
+                    ok = ok and _t(rk) == ctext(f"{{d[0]: i for i, d in enumerate({S})}}")
+            ok_all = ok_all and ok
+            if S is not None:
+                core = ctext(f"[(_[1], f'{{{c_}}}={{_[1]}}') for _ in sorted((n, d) for d, n in {v_}.items())]")
+                filt = {ctext(f"[d for d in {core} if d[1] not in self.remove]"), ctext(f"[(a, b) for a, b in {core} if b not in self.remove]")}
+                rm = truth_of(p.conds, "self.remove")
+                seen_remove.add(rm)
+                if rm is True:
+                    ok_all = ok_all and S in filt
+                elif rm is False:
+                    ok_all = ok_all and S == core
+                else:
+                    ok_all = False
+        ck.verdict(ok_all and seen_remove == {True, False}, "C19.b", bs, "offset[c] = names so far; ranks and names from the same (filtered) list; offset += its length", "offset of a column = number of names appended before it; rank = position of the value among that column's names (removed names dropped first); names are column=value in rank order", "the schema no longer keeps the offsets, the per-value ranks and the list of names in step (offsets must advance by exactly the number of names appended, after the removal of names)")
+        init = [p for p in _run_block(bs, [s_ for s_ in bs.node.body if s_.lineno < l.lineno], {})]
+        offv = None
+        for p in bp:
+            o = p.named_stores.get(f"{pos_v}[{c_}]")
+            offv = o.id if isinstance(o, ast.Name) else None
+        ck.verdict(bool(init) and offv is not None and _t(init[0].env.get(offv, "")) == "0", "C19.b", bs, f"{offv} = 0", "offsets start at 0", "offsets do not start at 0")
+    # ---- fit: ranks = enumerate(sorted(distinct non-missing values)); schema rebuilt
+    floops = [l for l in own_nodes(fit.node) if isinstance(l, ast.For) and isinstance(l.target, ast.Name)]
+    okr = False
+    Xf = fit.named_params[1]
+    for l in floops:
+        cv = l.target.id
+        for p in _run_block(fit, l.body, {}):
+            if p.ret is None:
+                v = p.named_stores.get(f"self._categories[{cv}]")
+                if v is not None and _t(v) == ctext(f"{{value: rank for rank, value in enumerate(sorted(set({Xf}[{cv}].dropna())))}}"):
+                    okr = True
+    ck.verdict(okr, "C19.b", fit, "rank = enumerate(sorted(set(column without missing values)))", "ranks are positions among the sorted training categories", "ranks are not enumerate(sorted(distinct non-missing values))")
+    fp = [p for p in split_ifexp(paths(fit)) if p.ret != RAISE]
+    oks = bool(fp)
+    for p in fp:
+        keys = list(p.named_stores)
+        oks = oks and _t(p.named_stores.get("self._schema", "")) == "self._build_schema()" and "self._fit_columns" in keys and "self._categories" in keys and keys.index("self._categories") < keys.index("self._schema")
+    ck.verdict(oks, "C19.b", fit, "self._schema = self._build_schema()", "categories, fitted columns and the schema are rebuilt at every fit", "fit does not rebuild the schema / fitted columns")
+    # ---- transform
+    Xt = tr.named_params[1]
+    SCH = "self._schema"
+    for single in (False, True):
+        tp = [p for p in split_ifexp(paths(tr, {"self.single": single})) if p.ret != RAISE]
+        if not tp:
+            ck.unknown("C19.b", tr, f"transform[single={single}]", "no path")
+            continue
+        if single:
+            ok = True
+            for p in tp:
+                ok = ok and p.ret_text() == f"{Xt}.copy()"
+                st = [(k, v) for k, v in p.named_stores.items() if k.startswith(f"{Xt}[")]
+                ok = ok and len(st) == 1
+                if ok:
+                    k, v = st[0]
+                    col = k[len(Xt) + 1 : -1]
+                    ok = isinstance(v, ast.Call) and isinstance(v.func, ast.Attribute) and v.func.attr == "apply" and _t(v.func.value) == f"{Xt}.copy()[{col}]" and len(v.args) == 1 and isinstance(v.args[0], ast.Lambda)
+                    if ok:
+                        lam = v.args[0]
+                        names = [a.arg for a in lam.args.args]
+                        dflt = {a.arg: _t(d) for a, d in zip(lam.args.args[len(lam.args.args) - len(lam.args.defaults):], lam.args.defaults)}
+                        body = lam.body
+                        ok = isinstance(body, ast.Call) and len(body.args) == 2 and _t(body.args[0]) == names[0] and len(names) == 2 and dflt.get(names[1]) == col and _t(body.args[1]) == f"{SCH}[2][{names[1]}]"
+            ck.verdict(ok, "C19.b", tr, "single=True: a copy of X, column c mapped through its own rank table", "single=True encodes a copy of the frame, each fitted column through its own rank table", "single=True writes into the caller's frame, or does not map column c through the ranks of column c")
+            continue
+        # indicator layout
+        rows = [l for l in own_nodes(tr.node) if isinstance(l, ast.For) and any(isinstance(x, ast.For) for x in l.body)]
+        if len(rows) != 1:
+            ck.unknown("C19.b", tr, "row / cell loops", "loop nest not found")
+            continue
+        lo = rows[0]
+        li = [x for x in lo.body if isinstance(x, ast.For)][0]
+        pre = [p for p in _run_block(tr, [s_ for s_ in _branch_of(tr, lo) if s_.lineno < lo.lineno], {"self.single": ast.Constant(False)}) if p.ret is None]
+        if not pre:
+            ck.unknown("C19.b", tr, "set-up of the indicator branch", "no path")
+            continue
+        env = dict(pre[0].env)
+        DFCAT = f"{Xt}[self._fit_columns]"
+        it_o = _t(PathSub(env, lo.iter))
+        okrow = it_o == f"enumerate({DFCAT}.to_dict('records'))" and isinstance(lo.target, ast.Tuple) and len(lo.target.elts) == 2
+        i_, row_ = [src_of(e) for e in lo.target.elts] if okrow else ("i", "row")
+        okcell = src_of(li.iter) == f"{row_}.items()" and isinstance(li.target, ast.Tuple) and len(li.target.elts) == 2
+        k_, v_ = [src_of(e) for e in li.target.elts] if okcell else ("k", "v")
+        ck.verdict(okrow and okcell, "C19.b", tr, f"for {i_}, {row_} in enumerate(records); for {k_}, {v_} in {row_}.items()", "row i of the output is row i of the input; every categorical cell is visited", "rows are not enumerated in input order over the fitted columns")
+        res_names = [k for k, v in env.items() if _t(v).replace(" ", "").startswith(f"numpy.zeros(({Xt}.shape[0],len({SCH}[0])))") or _t(v).replace(" ", "").startswith(f"numpy.full(({Xt}.shape[0],len({SCH}[0])),numpy.nan")]
+        filled = any(_t(c) .replace(" ", "")== f"numpy.zeros(({Xt}.shape[0],len({SCH}[0]))).fill(numpy.nan)" for c in pre[0].calls) or any(_t(env[k]).replace(" ", "").startswith("numpy.full(") for k in res_names)
+        ck.verdict(len(res_names) == 1 and filled, "C19.b", tr, f"indicator matrix {res_names}", "one column per schema name, every cell missing (NaN) until an indicator is set", "the indicator matrix is not (rows x schema names) filled with NaN")
+        R = res_names[0] if res_names else "res"
+        cells = _run_block(tr, li.body, env)
+        miss_t = ctext(f"{v_} is None or (isinstance({v_}, float) and numpy.isnan({v_}))")
+        known_t = ctext(f"{v_} in {SCH}[2][{k_}]")
+        kinds = set()
+        bad = []
+        for p in cells:
+            m = truth_of(p.conds, miss_t)
+            if m is None:
+                a, b = truth_of(p.conds, f"{v_} is None"), truth_of(p.conds, ctext(f"isinstance({v_}, float) and numpy.isnan({v_})"))
+                if a is False and (b is False or truth_of(p.conds, f"isinstance({v_}, float)") is False or truth_of(p.conds, f"numpy.isnan({v_})") is False):
+                    m = False
+            kn = truth_of(p.conds, known_t)
+            sk = truth_of(p.conds, "self.skip_errors")
+            st = {k: _t(v) for k, v in p.named_stores.items() if k.startswith(R + "[")}
+            if m is True:
+                kinds.add("missing")
+                if not (p.ret in (CONTINUE, None) and not st):
+                    bad.append(("missing", p.ret, st))
+            elif m is False and kn is True:
+                kinds.add("known")
+                if not (st == {f"{R}[{i_}, {SCH}[1][{k_}] + {SCH}[2][{k_}][{v_}]]": "1.0"} and p.ret in (None, CONTINUE)):
+                    bad.append(("known", p.ret, st))
+            elif m is False and kn is False and sk is False:
+                kinds.add("unseen-raise")
+                if p.ret != RAISE:
+                    bad.append(("unseen, skip_errors False", p.ret, st))
+            elif m is False and kn is False and sk is True:
+                kinds.add("unseen-skip")
+                if not (p.ret in (None, CONTINUE) and not st):
+                    bad.append(("unseen, skip_errors True", p.ret, st))
+            elif p.ret == RAISE and m is False and kn is False:
+                # a raise reached before skip_errors is looked at: only allowed when it is False
+                bad.append(("unseen raise not conditioned on skip_errors", p.ret, sorted(p.conds)))
+            else:
+                bad.append(("undecided", p.ret, sorted(p.conds)))
+        ck.verdict(not bad and kinds == {"missing", "known", "unseen-raise", "unseen-skip"}, "C19.b", tr, f"cell cases {sorted(kinds)}", "missing -> no indicator; known -> 1.0 at offset[column] + rank[column][value]; unseen -> error unless skip_errors, then that cell only is skipped", f"cell handling changed: {bad[:2]} (cases {sorted(kinds)}): the indicator is not at offset + rank, missing values are looked up, or an unseen category leaves the row / is not refused")
+        # output frame
+        NEW = f"pandas.DataFrame({_t(env[R]) if R in env else R}, columns={SCH}[0], index={DFCAT}.index)"
+        NUM = f"{Xt}[[c for c in {Xt}.columns if c not in self._fit_columns]]"
+        got = {}
+        for p in tp:
+            has_num = truth_of(p.conds, ctext(f"{NUM}.shape[1] > 0"))
+            if has_num is None:
+                z = truth_of(p.conds, ctext(f"{NUM}.shape[1] == 0"))
+                has_num = None if z is None else (not z)
+            got[has_num] = p.ret_text().replace(" ", "")
+        NEWn = ctext(NEW).replace(" ", "")
+        ck.verdict(got.get(True) == f"pandas.concat([{ctext(NUM)},{NEWn}],axis=1)".replace(" ", "") and got.get(False) == NEWn, "C19.b", tr, "DataFrame(res, columns=names, index=categorical.index); concat([numeric, indicators], axis=1)", "rows keep their order and index; numeric columns (the complement of the fitted columns) pass through unchanged", f"the indicator frame does not reuse the input index or numeric columns are not concatenated unchanged: {got}")
+
+
+def _branch_of(fi, loop):
+    """the statement list that contains `loop`"""
+    p = getattr(loop, "_parent", None)
+    for f in ("body", "orelse"):
+        b = getattr(p, f, None)
+        if isinstance(b, list) and any(x is loop for x in b):
+            return b
+    return fi.node.body
+
+
+def PathSub(env, e):
+    from engine.patheval import _Sub
+    from engine.util import clone_ast
+
+    x = _Sub(env).visit(clone_ast(e))
+    return complement_norm(x)
 
 
 def run(ck):
